@@ -1290,18 +1290,23 @@ func init() {
 			atoms := func(v ssa.Value) (int, bool, bool) {
 				switch x := v.(type) {
 				case *ssa.BinOp:
-					sx := exprSig(x, 0)
+					// a != b is the negation of the atom a == b
+					op, neg := x.Op, false
+					if op == token.NEQ {
+						op, neg = token.EQL, true
+					}
+					sx := "(" + exprSig(x.X, 0) + op.String() + exprSig(x.Y, 0) + ")"
 					switch {
-					case x.Op == token.EQL && (sx == "(param:termCardinality==1)" || sx == "(1==param:termCardinality)"):
-						return 0, false, true
-					case (x.Op == token.LEQ || x.Op == token.EQL) && strings.Contains(exprSig(x.X, 0), "FinalSize(") && exprSig(x.Y, 0) == "0":
-						return 1, false, true
-					case x.Op == token.GTR && strings.Contains(exprSig(x.X, 0), "FinalSize(") && exprSig(x.Y, 0) == "0":
+					case op == token.EQL && (sx == "(param:termCardinality==1)" || sx == "(1==param:termCardinality)"):
+						return 0, neg, true
+					case (op == token.LEQ || op == token.EQL) && strings.Contains(exprSig(x.X, 0), "FinalSize(") && exprSig(x.Y, 0) == "0":
+						return 1, neg, true
+					case op == token.GTR && strings.Contains(exprSig(x.X, 0), "FinalSize(") && exprSig(x.Y, 0) == "0":
 						return 1, true, true
-					case x.Op == token.EQL && isLastHitCmp(exprSig(x.X, 0), exprSig(x.Y, 0)):
-						return 3, false, true
-					case x.Op == token.EQL && isLastFreqOne(exprSig(x.X, 0), exprSig(x.Y, 0)):
-						return 4, false, true
+					case op == token.EQL && isLastHitCmp(exprSig(x.X, 0), exprSig(x.Y, 0)):
+						return 3, neg, true
+					case op == token.EQL && isLastFreqOne(exprSig(x.X, 0), exprSig(x.Y, 0)):
+						return 4, neg, true
 					}
 				case *ssa.Call:
 					if sc := x.Call.StaticCallee(); sc != nil && fnName(sc) == "under32Bits" {
